@@ -343,6 +343,12 @@ class Evaluator:
         if isinstance(v, Obj):
             r = self.repo.resolve_method(v.mod, v.cls, "__bool__") or self.repo.resolve_method(v.mod, v.cls, "__len__") if v.mod != "builtins" else None
             if r:
+                for dunder in ("__bool__", "__len__"):
+                    ok, res = self._obj_method(v, dunder, [])
+                    if ok:
+                        if isinstance(res, (Obj, ClassRef)):
+                            raise Undecided("%s returned an object" % dunder)
+                        return bool(res)
                 raise Undecided("truth of an object with __bool__/__len__")
             return True
         if isinstance(v, (ClassRef, SuperRef)):
@@ -420,6 +426,8 @@ class Evaluator:
                     return ("func", m2.name, r[1])
             if e.id in _BUILTIN_TYPES:
                 return _BUILTIN_TYPES[e.id]
+            if e.id == "print":
+                return ("noop",)  # diagnostics have no effect on the verdict
             if e.id in ("little_endian_to_int", "big_endian_to_int", "int_to_little_endian", "int_to_big_endian") and "helper" in self.repo.modules \
                     and e.id in self.repo.modules["helper"].functions:
                 return ("func", "helper", e.id)  # the normal form spells int.from_bytes / to_bytes with the library helpers
@@ -614,8 +622,24 @@ class Evaluator:
         if txt in self.hooks:
             h = self.hooks[txt]
             return h() if callable(h) else h
-        if any(isinstance(a, ast.Starred) for a in e.args) or any(k.arg is None for k in e.keywords):
-            raise Undecided("star arguments")
+        if any(k.arg is None for k in e.keywords):
+            raise Undecided("double-star arguments")
+        if any(isinstance(a, ast.Starred) for a in e.args):
+            # f(a, *rest): the starred operand must evaluate to a list / tuple; the call is re-written with its elements as constants of the environment
+            env = dict(env)
+            new_args = []
+            for i, a in enumerate(e.args):
+                if isinstance(a, ast.Starred):
+                    v = self._expr(a.value, env, mod, cls)
+                    if not isinstance(v, (list, tuple)):
+                        raise Undecided("star argument of %s" % type(v).__name__)
+                    for j, x in enumerate(v):
+                        nm = "__star_%d_%d__" % (i, j)
+                        env[nm] = x
+                        new_args.append(ast.copy_location(ast.Name(id=nm, ctx=ast.Load()), a))
+                else:
+                    new_args.append(a)
+            e = ast.copy_location(ast.Call(func=e.func, args=new_args, keywords=e.keywords), e)
         if isinstance(e.func, ast.Name) and e.func.id == "super" and not e.args:
             me = env.get("self", env.get("cls"))
             if me is None or cls is None:
